@@ -291,6 +291,31 @@ def run_shard(ctx, kind="full", prefix=""):
             if ctx.out_of_time():
                 break
     ctx.count("distinct_automaton_x_radio_states", nstates)
+    # directed templates beyond the search depth: a user address on pipe 0, a TX address, auto-ack
+    # for pipe 0 changed, ANOTHER TX address, (auto-ack back), RX entry, back to TX, TX address again
+    E = "a5a5a5a5a5"
+    tpl = []
+    for x in (A, B, C):
+        for y in (A, C, E):
+            for aa1 in (None, ["set_auto_ack", 0, 0], ["auto_ack", 0x3E], ["auto_ack", 0]):
+                for z in (C, D, E, A):
+                    for aa2 in (None, ["set_auto_ack", 1, 0], ["auto_ack", 0x3F]):
+                        if kind != "full" and (aa1 or aa2):
+                            continue
+                        path = [["open_rx_pipe", 0, x], ["open_tx_pipe", y]] + ([aa1] if aa1 else []) + \
+                               [["open_tx_pipe", z]] + ([aa2] if aa2 else []) + [["listen", True], ["listen", False],
+                                                                                ["open_tx_pipe", y]]
+                        tpl.append(path)
+    for ti, path in enumerate(tpl):
+        if ti % ctx.nshards != ctx.shard:
+            continue
+        if ctx.out_of_time():
+            break
+        aw = 3 + ti % 3
+        for c in (len(path) - 2, len(path)):  # judged at the RX entry and at the final open_tx_pipe
+            ctx.evaluations += 1
+            execute(ctx, {"kind": kind, "aw": aw, "ops": path[:c]}, prefix=prefix)
+    ctx.count("directed_templates", len(tpl))
     # random walks
     rng = ctx.sub_rng("c08walk", kind, ctx.shard)
     nwalk = 60 if ctx.tier == "quick" else 3000
